@@ -348,6 +348,27 @@ def check_graph(ctx, A, directed):
                    ("internal_average_path_length(V)",
                     lambda: net.internal_average_path_length(V),
                     lambda: net.average_path_length())]
+            # ... and of the n.s.i. measures (node weights drawn at random):
+            # with both groups equal to the whole node set a node is its own
+            # neighbour in A+ on both sides
+            wv = np.array(graphs.weights(ctx.rng, n))
+            netw = InteractingNetworks(adjacency=A, directed=False,
+                                       node_weights=wv, silence_level=3)
+            lim += [("nsi_cross_degree(V,V)",
+                     lambda: netw.nsi_cross_degree(V, V),
+                     lambda: netw.nsi_degree()),
+                    ("nsi_internal_degree(V)",
+                     lambda: netw.nsi_internal_degree(V),
+                     lambda: netw.nsi_degree()),
+                    ("nsi_cross_transitivity(V,V)",
+                     lambda: netw.nsi_cross_transitivity(V, V),
+                     lambda: netw.nsi_transitivity()),
+                    ("nsi_cross_local_clustering(V,V)",
+                     lambda: netw.nsi_cross_local_clustering(V, V),
+                     lambda: netw.nsi_local_clustering()),
+                    ("nsi_cross_global_clustering(V,V)",
+                     lambda: netw.nsi_cross_global_clustering(V, V),
+                     lambda: netw.nsi_global_clustering())]
             for name, f, g in lim:
                 try:
                     x, y = f(), g()
@@ -360,7 +381,8 @@ def check_graph(ctx, A, directed):
                                   "does not reproduce the single-network "
                                   "measure on the whole node set",
                                   dict(key, got=np.asarray(x, float).tolist(),
-                                       whole=np.asarray(y, float).tolist()),
+                                       whole=np.asarray(y, float).tolist(),
+                                       w=wv.tolist()),
                                   {})
     ctx.sample({"n": n, "directed": directed})
 
